@@ -87,29 +87,34 @@ def _get_active_realizations(
     objective_weights: NDArray[np.float64] | None = None,
     constraint_weights: NDArray[np.float64] | None = None,
 ) -> tuple[NDArray[np.bool_] | None, NDArray[np.bool_] | None]:
-    if objective_weights is None:
-        active_realizations = np.abs(config.realizations.weights) > 0
-        if np.all(active_realizations):
-            return None, None
-        active_objectives = np.broadcast_to(
+    # Functions without their own weights use the configured realization weights:
+    active_realizations = np.abs(config.realizations.weights) > 0
+    if (
+        objective_weights is None
+        and constraint_weights is None
+        and np.all(active_realizations)
+    ):
+        return None, None
+    active_objectives = (
+        np.broadcast_to(
             active_realizations,
             (config.objectives.weights.size, active_realizations.size),
         )
-        active_constraints = (
-            None
-            if config.nonlinear_constraints is None
-            else np.broadcast_to(
-                active_realizations,
-                (
-                    config.nonlinear_constraints.lower_bounds.size,
-                    active_realizations.size,
-                ),
-            )
-        )
-        return active_objectives, active_constraints
-    active_objectives = np.abs(objective_weights) > 0
+        if objective_weights is None
+        else np.abs(objective_weights) > 0
+    )
+    if config.nonlinear_constraints is None:
+        return active_objectives, None
     active_constraints = (
-        None if constraint_weights is None else np.abs(constraint_weights) > 0
+        np.broadcast_to(
+            active_realizations,
+            (
+                config.nonlinear_constraints.lower_bounds.size,
+                active_realizations.size,
+            ),
+        )
+        if constraint_weights is None
+        else np.abs(constraint_weights) > 0
     )
     return active_objectives, active_constraints
 
